@@ -40,8 +40,9 @@ const (
 	maxPages  = 65536
 	heavyPage = 256 // Go-heap backed buffers above this many pages are "heavy" (zeroing/copy cost)
 
-	findMemLen = "C14-compiler-memlen-32bit"
-	findWrap   = "C14-memory-accessor-u32-wrap"
+	findImpFree = "C14-importer-close-frees-owner-allocator-buffer"
+	findMemLen  = "C14-compiler-memlen-32bit"
+	findWrap    = "C14-memory-accessor-u32-wrap"
 )
 
 // ---------------------------------------------------------------- case form
@@ -409,6 +410,15 @@ func definerModule(c Config) []byte {
 	return m.Encode()
 }
 
+// importerModule imports the memory defined by "m" and exports size/grow ("impclose" op).
+func importerModule(c Config) []byte {
+	m := &wasmenc.Module{}
+	m.Imports = append(m.Imports, wasmenc.Import{Mod: "m", Name: "mem", Kind: wasmenc.KMem, Desc: limits(c)})
+	m.ExportFunc("size", m.AddFunc(nil, []byte{i32}, nil, wasmenc.NewB().MemorySize().Bytes()))
+	m.ExportFunc("grow", m.AddFunc([]byte{i32}, []byte{i32}, nil, wasmenc.NewB().LocalGet(0).MemoryGrow().Bytes()))
+	return m.Encode()
+}
+
 // calleeModule is module "b": its own memory plus the callee functions.
 func calleeModule(c Config) []byte {
 	m := &wasmenc.Module{Mems: [][]byte{limits(c.bCfg())}}
@@ -584,6 +594,7 @@ type instance struct {
 	fn    map[string]api.Function
 	bmod  api.Module // callee module "b" (X == "own")
 	bmem  api.Memory
+	ctx   context.Context // instantiation context (carries the allocator)
 }
 
 var bg = context.Background()
@@ -614,6 +625,7 @@ func open(c Config, wasm []byte) (in *instance, err error, internal string) {
 		in.alloc = newAllocator(c.Alloc)
 		ctx = experimental.WithMemoryAllocator(bg, in.alloc)
 	}
+	in.ctx = ctx
 	_, err = in.rt.NewHostModuleBuilder("env").NewFunctionBuilder().
 		WithGoModuleFunction(api.GoModuleFunc(func(_ context.Context, mod api.Module, stack []uint64) {
 			prev, ok := mod.Memory().Grow(api.DecodeU32(stack[0]))
@@ -1023,6 +1035,67 @@ func (r *runner) step(op Op) *failure {
 		if wok && op.D > 0 {
 			return r.afterGrow("after "+desc, before)
 		}
+	case "impclose":
+		// another module importing the same memory is instantiated, used and closed while the
+		// defining module and the guest stay open
+		if !r.c.Imported {
+			return nil
+		}
+		desc := fmt.Sprintf("instantiating a second importer of the memory (%d pages), memory.grow(%d) in it, then closing it (%s)", m.pages, op.D, op.W)
+		var imod api.Module
+		var err error
+		if p := host(func() {
+			var cm wazero.CompiledModule
+			if cm, err = in.rt.CompileModule(bg, importerModule(r.c)); err == nil {
+				imod, err = in.rt.InstantiateModule(in.ctx, cm, wazero.NewModuleConfig().WithName(""))
+			}
+		}); p != "" || err != nil {
+			return failf("%s: instantiation failed: %v %s", desc, err, p)
+		}
+		res, o := wz.SafeCall(bg, imod.ExportedFunction("size"))
+		if o.Kind != wz.KOK || uint32(res[0]) != m.pages {
+			return failf("%s: memory.size in the new importer = %v %v, model has %d pages", desc, res, o, m.pages)
+		}
+		prevPages := m.pages
+		want, wok := m.grow(op.D)
+		r.noteGrow(true, wok, op.D)
+		wantR := uint32(0xffffffff)
+		if wok {
+			wantR = want
+		}
+		res, o = wz.SafeCall(bg, imod.ExportedFunction("grow"), uint64(op.D))
+		if o.Kind != wz.KOK || uint32(res[0]) != wantR {
+			return failf("%s: memory.grow in the new importer returned %v %v, expected %d", desc, res, o, int32(wantR))
+		}
+		if p := host(func() {
+			if op.W == "exit" {
+				err = imod.CloseWithExitCode(bg, 7)
+			} else {
+				err = imod.Close(bg)
+			}
+		}); p != "" || err != nil {
+			return failf("%s: close failed: %v %s", desc, err, p)
+		}
+		if in.alloc != nil {
+			in.alloc.st.mu.Lock()
+			frees := in.alloc.st.frees
+			in.alloc.st.mu.Unlock()
+			if frees > 0 {
+				return failf("%s: closing the importing module made wazero call LinearMemory.Free on the buffer of the memory although the module that defines it (and another importer) is still open", desc)
+			}
+		}
+		if f := r.checkSizes("after " + desc); f != nil {
+			return f
+		}
+		if wok && op.D > 0 {
+			if f := r.afterGrow("after "+desc, prevPages); f != nil {
+				return f
+			}
+		}
+		if f := r.dirty("after " + desc); f != nil {
+			return f
+		}
+		return r.window("after "+desc, 0, 64)
 	case "xgrow", "xgrowsz":
 		if r.c.X == "" {
 			return nil
@@ -1832,6 +1905,7 @@ func TestConcurrentGrow(t *testing.T) {
 
 var (
 	probeOnce              sync.Once
+	hasImpFree             bool
 	hasMemLen32, hasWrap   bool
 	probeMemLen, probeWrap Case
 	probeViolations        []string
@@ -1873,6 +1947,9 @@ func probes() {
 		probeWrap = Case{Cfg: Config{Engine: "interpreter", Min: 65536, Max: -1, Limit: -1, Alloc: "mmap"}, Ops: wrapOps(0xffffffff)}
 		hasWrap = attribute(findWrap, "known-wrap", probeWrap,
 			Case{Cfg: Config{Engine: "interpreter", Min: 65535, Max: -1, Limit: -1, Alloc: "mmap"}, Ops: wrapOps(0xfffeffff)})
+		impOps := []Op{{K: "hwrite", W: "32", Off: 16, V: 0xa1b2c3d4}, {K: "impclose", W: "close"}, {K: "hread", W: "32", Off: 16}, {K: "ggrow", D: 1}, {K: "gload", W: "32", Off: 16}}
+		hasImpFree = attribute(findImpFree, "known-importer-close-frees", Case{Cfg: Config{Engine: "interpreter", Min: 1, Max: -1, Limit: -1, Alloc: "slice", Imported: true}, Ops: impOps},
+			Case{Cfg: Config{Engine: "interpreter", Min: 1, Max: -1, Limit: -1, Alloc: "default", Imported: true}, Ops: impOps})
 		debug.FreeOSMemory()
 	})
 }
@@ -2100,6 +2177,13 @@ func genValue(t *rapid.T) uint64 {
 func genOp(t *rapid.T, g *genState, c Config) Op {
 	kinds := []string{"ggrow", "ggrow", "hgrow", "hgrow", "vgrow", "vgrowld", "gsl", "gsize", "hsize",
 		"hread", "hread", "hread", "hwrite", "hwrite", "hwrite", "gload", "gload", "gstore", "gstore", "hview"}
+	if c.Imported {
+		if hasImpFree && c.Alloc != "default" {
+			evid.Label("excluded-importer-close-with-custom-allocator", 1)
+		} else {
+			kinds = append(kinds, "impclose", "impclose", "impclose")
+		}
+	}
 	if c.X != "" {
 		kinds = append(kinds, "xgrow", "xgrow", "xgrowsz", "xgrowsz", "xmix", "xmix", "xload", "xload", "xstore", "xstore", "xsize")
 		if c.X == "own" {
@@ -2123,6 +2207,12 @@ func genOp(t *rapid.T, g *genState, c Config) Op {
 		}
 	}
 	switch kind {
+	case "impclose":
+		op.W = rapid.SampledFrom([]string{"close", "close", "exit"}).Draw(t, "how")
+		if rapid.Bool().Draw(t, "grow-in-importer") {
+			op.D = genDelta(t, g, c)
+			noteGrow(op.D)
+		}
 	case "xgrow", "xgrowsz", "bhgrow":
 		op.D = genDelta(t, gx, c)
 		noteGrowX(op.D)
@@ -2337,6 +2427,12 @@ func labelsOf(c Case, m *model, skipped bool) (bool, []string) {
 	if c.Cfg.Imported {
 		l = append(l, "imported-memory")
 	}
+	for _, op := range c.Ops {
+		if op.K == "impclose" && c.Cfg.Imported {
+			l = append(l, "importer-instantiated-and-closed")
+			break
+		}
+	}
 	if c.Cfg.X != "" {
 		l = append(l, "callee-module-"+c.Cfg.X+"-memory")
 		for _, op := range c.Ops {
@@ -2364,6 +2460,9 @@ func TestKnownFindings(t *testing.T) {
 	}
 	if !hasMemLen32 {
 		evid.Note("known defect %s did not reproduce: 65536-page memories are explored on the compiler too", findMemLen)
+	}
+	if !hasImpFree {
+		evid.Note("known defect %s did not reproduce: closing importers is explored with custom allocators too", findImpFree)
 	}
 	if !hasWrap {
 		evid.Note("known defect %s did not reproduce: accesses ending at 2^32 are explored", findWrap)
